@@ -34,13 +34,13 @@ package posting
 //@     && (forall k int :: {ps[2*k]} 0 <= k && 2*k+1 < len(ps) ==> pair(ps[2*k], ps[2*k+1]))
 //
 //@ func Create
-//@   requires reg != nil && reg.accounts != nil && wfCommodities(reg.commodities) && reg.accounts.index != reg.commodities.index
-//@   ensures wfCommodities(reg.commodities)
+//@   requires reg != nil && wfAccounts(reg.accounts) && wfCommodities(reg.commodities) && reg.accounts.index != reg.commodities.index
+//@   ensures wfCommodities(reg.commodities) && wfAccounts(reg.accounts)
 //@   requires forall i int :: {bs[i]} 0 <= i && i < len(bs) ==> inText(bs[i].Quantity.Range) && inText(bs[i].Credit.Range) && inText(bs[i].Debit.Range) && inText(bs[i].Commodity.Range)
 //@   modifies reg.accounts.index[*], reg.commodities.index[*]
 //@   ensures result.1 == nil ==> len(result.0) == 2 * len(bs) && paired(result.0) && fresh(result.0)
 //@   ensures result.1 == nil ==> (forall i int :: {result.0[i]} 0 <= i && i < len(result.0) ==> result.0[i] != nil && validAccount(result.0[i].Account) && result.0[i].Commodity != nil)
-//@   loop 1 invariant len(builder) == $i && fresh(builder) && 0 <= $i && $i <= len(bs) && wfCommodities(reg.commodities)
+//@   loop 1 invariant len(builder) == $i && fresh(builder) && 0 <= $i && $i <= len(bs) && wfCommodities(reg.commodities) && wfAccounts(reg.accounts)
 //@   loop 1 invariant forall k int :: {builder[k]} 0 <= k && k < $i ==> validAccount(builder[k].Credit) && validAccount(builder[k].Debit) && builder[k].Commodity != nil
 //
 // Compare: lexicographic on (account, other account, quantity, value, commodity name) - a total order
